@@ -469,14 +469,14 @@ def _collect_concats(formulas, seen, out):
             continue
         seen.add(i)
         if z3.is_app(e):
-            if e.decl().kind() == z3.Z3_OP_SEQ_CONCAT:
+            if e.decl().kind() in (z3.Z3_OP_SEQ_CONCAT, z3.Z3_OP_SEQ_UNIT):
                 out.append(e)
             stack.extend(e.children())
         elif z3.is_quantifier(e):
             stack.append(e.body())
 
 
-def instantiate_axioms(formulas, rounds=3):
+def instantiate_axioms(formulas, rounds=5):
     """Mechanical unfolding of the SpecFun axioms on the concat structure of the
     argument terms occurring in `formulas` (and in the unfolded axioms).  In addition every
     homomorphism is applied to every concatenation term of its argument sort that occurs
@@ -487,13 +487,13 @@ def instantiate_axioms(formulas, rounds=3):
     axioms = []
     work = list(formulas)
     cseen = set()
+    extras = {}
+    concats = []
     for _ in range(rounds):
         apps = []
         for f in work:
             _walk(f, seen, apps)
-        concats = []
         _collect_concats(work, cseen, concats)
-        extras = {}
         for sf, app in apps:
             ex = tuple(app.arg(i) for i in range(sf.nextra))
             extras.setdefault(sf.name, {})[tuple(a.get_id() for a in ex)] = ex
